@@ -197,6 +197,60 @@ def tagged_rule(ctx):
                       "number matches (RFC 9682: the tag number is an instance of t)" % sorted(type_visits))
 
 
+def encoding_rule(ctx):
+    """C02 quantifies over every encoding of a document: the decoder has to give the definite- and the indefinite-length encoding of the
+    same array / map the same data-model value (the decoder model and its RFC 8949 oracle are those of C11.table)"""
+    import c11
+    rid = "C02.encoding"
+    ctx.rule(rid, "decode_value (interpreted from its source on header sequences) returns the same data-model value for the definite-length and "
+                  "the indefinite-length encoding of the same array or map, for every pair of leaf items (integers, float, text, bytes, "
+                  "one-byte simple values, a tagged item) as elements / key and value, also nested — validation sees one value per "
+                  "document whatever container encoding the producer chose (RFC 8949 section 3.2.2)", floor=100)
+    f = ctx.facts
+    fi = f.fn(c11.F, "decode_value")
+    leaves = [("u5",), ("n5",), ("f",), ("t2",), ("b2",), ("false",), ("null",), ("undef",), ("s99",), ("tag", "u5"), ("tag", "false")]
+    pairs = []
+    for x in leaves:
+        for y in leaves:
+            pairs.append((("a2",) + x + y, ("a*",) + x + y + ("brk",)))
+            pairs.append((("m1",) + x + y, ("m*",) + x + y + ("brk",)))
+    for x in leaves[:6]:
+        for y in leaves[3:8]:
+            pairs.append((("a2", "a1") + x + y, ("a*", "a*") + x + ("brk",) + y + ("brk",)))
+            pairs.append((("a2", "m1") + x + y + ("false",), ("a*", "m*") + x + y + ("brk", "false", "brk")))
+            pairs.append((("a2", "u5", "a2") + x + y, ("a*", "u5", "a*") + x + y + ("brk", "brk")))
+    seen = set()
+    for d, i in pairs:
+        a, _ = c11.classify(f, list(d))
+        b, _ = c11.classify(f, list(i))
+        key = " ".join(d)
+        if a[0] == "unknown" or b[0] == "unknown":
+            ctx.incomplete_msg(rid, "%s: %s" % (key, a[1] if a[0] == "unknown" else b[1]))
+            continue
+        ctx.site(rid, key, c11.F, fi.line, None)
+        def rank(v):
+            # string payloads are identified by the position of their head in the sequence, which the break codes shift: compare by order
+            order = {}
+
+            def go(x):
+                if isinstance(x, tuple) and len(x) == 2 and x[0] in ("payload", "badpayload", "half1", "half2") and isinstance(x[1], int):
+                    return (x[0], order.setdefault(x[1], len(order)))
+                if isinstance(x, tuple):
+                    return tuple(go(y) for y in x)
+                if isinstance(x, list):
+                    return [go(y) for y in x]
+                return x
+            return go(v)
+        same = a[0] == b[0] and (a[0] == "err" or c11._same(rank(a[1]), rank(b[1])))
+        if not same:
+            k = "%s|%s" % (d[0], "indefinite-rejected" if b[0] == "err" else ("definite-rejected" if a[0] == "err" else "value-differs"))
+            if k in seen:
+                continue
+            seen.add(k)
+            ctx.violation(rid, k, c11.F, fi.line, "the definite-length encoding [%s] decodes to %s, the indefinite-length encoding [%s] of the same item to %s: "
+                          "the verdict depends on the container encoding" % (key, c11.show(a), " ".join(i), c11.show(b)))
+
+
 def run(ctx):
     ctx.guarded("C02.cmp", lambda c: cv.cmp_rule(c, "C02", "cbor"))
     ctx.guarded("C02.range", lambda c: cv.range_rule(c, "C02", "cbor"))
@@ -213,6 +267,7 @@ def run(ctx):
     ctx.guarded("C02.width", width_rule)
     ctx.guarded("C02.major", major_rule)
     ctx.guarded("C02.tagged", tagged_rule)
+    ctx.guarded("C02.encoding", encoding_rule)
     import prelude_scalar as ps
     ctx.guarded("C02.prelude", lambda c: ps.rule(c, "C02", "cbor"))
     ctx.guarded("C02.tagtable", ps.tagtable_rule)
